@@ -369,8 +369,9 @@ def behaviour_set_equality(res, pid, family, cands, max_ballots, max_w, with_hal
         if not complete.get(key):
             skipped += 1
             continue
-        if any(json.loads(b)["status"] not in ("finished", "ValueError") for b in cb):
-            skipped_err += 1      # some run ends in another exception / non-termination: C01 speaks about that input (recorded findings)
+        spec_status = {json.loads(b)["status"] for b in sb}
+        if any(json.loads(b)["status"] not in ({"finished"} | spec_status) for b in cb):
+            skipped_err += 1      # some run ends in an exception the spec has no behaviour for: role 2 / C01 speak about that input (recorded findings)
             continue
         compared += 1
         if cb != sb:
